@@ -76,7 +76,9 @@ Fixpoint e_constr (c : constr) : sx :=
   end.
 
 Definition e_dvalue (v : dvalue) : sx :=
-  match v with VNull => L [A 0] | VBool b => L [A 1; e_bool b] | VString s => L [A 2; e_str s] end.
+  match v with
+  | VNull => L [A 0] | VBool b => L [A 1; e_bool b] | VString s => L [A 2; e_str s] | VInt z => L [A 3; e_big z]
+  end.
 Definition e_assign (a : assign) : sx :=
   match a with
   | AId id => L [A 0; e_str id]
